@@ -20,6 +20,10 @@ def consts : Consts where
 def orthoPairs : List (Nat × Nat) := [(0, 1), (0, 2), (1, 2)]
 /-- `repeat_box` hands its `amount` argument on to `repeat_box_coord` -/
 def repeatBoxPassesAmount : Bool := true
+/-- every `displacement(atomsI, atomsJ, box?)` call of distance / angle / dihedral: (I, J, passes `box` on) -/
+def distanceCalls : List (Nat × Nat × Bool) := [(1, 2, true)]
+def angleCalls : List (Nat × Nat × Bool) := [(1, 2, true), (3, 2, true)]
+def dihedralCalls : List (Nat × Nat × Bool) := [(1, 2, true), (2, 3, true), (3, 4, true)]
 /-- the round-off clean-up of `vectors_from_unitcell` compares with a tolerance built from the SUM of the lengths -/
 def unitcellTolUsesSum : Bool := false
 end BiotiteModel.Gen.C15
